@@ -148,6 +148,33 @@ def random_custom_spec(rng, rank):
 
 
 # ------------------------------------------------------------------ sub-checks
+def check_product_strings(ctx, ps, rng):
+    """'A*B*C' must be the operation A.B.C (left factor acts last) - also for factors that do not commute; and a group declared by such
+    a string alone must be the closure of that operation (the reversed product generally generates another group)"""
+    cubic = ["C4z", "C4x", "C4y", "Mx", "My", "Mz", "C2x", "C2y", "C2z", "Inversion", "TimeReversal"]
+    hexa = ["C6z", "C3z", "C2z", "Mx", "My", "Mz", "C2x", "C2y", "Inversion", "TimeReversal"]
+    pool, lat = (cubic, np.eye(3) * 2.3) if rng.random() < 0.6 else (hexa, np.array([[1, 0, 0], [-0.5, gg.SQ3 / 2, 0], [0, 0, 1.7]]))
+    nf = int(rng.integers(2, 5))
+    names = [pool[int(i)] for i in rng.integers(len(pool), size=nf)]
+    string = "*".join(names)
+    M, TR = gg.generator_matrix(string)
+    Mrev, _ = gg.generator_matrix("*".join(names[::-1]))
+    wit = dict(string=string, order_matters=bool(np.abs(M - Mrev).max() > 1e-9))
+    op = ps.from_string_prod(string)
+    Ml, TRl = lib_matrix(op)
+    ctx.close("from_string_prod!=ordered_matrix_product", Ml, M, rtol=1e-12, scale=1.0, what=string, witness=wit)
+    if TRl != TR:
+        ctx.violation("from_string_prod!=ordered_matrix_product", f"{string}: TR={TRl}, expected {TR}", wit)
+    G = ps.PointGroup([string], real_lattice=lat)
+    oracle = gg.close_group([(M, TR)])
+    libset = [lib_matrix(e) for e in G.symmetries]
+    if len(libset) != len(oracle) or any(len(match_index(Mo, To, libset)) != 1 for Mo, To in oracle):
+        ctx.violation("PointGroup(['A*B*...'])!=closure_of_the_ordered_product", f"{string}: {len(libset)} elements, oracle {len(oracle)}", wit)
+    ctx.count("product_strings_checked")
+    if wit["order_matters"]:
+        ctx.count("product_strings_noncommuting")
+
+
 def check_group_structure(ctx, ps, G, oracle, expected_order, wit, rng):
     n = G.size
     ctx.count("groups_built")
@@ -594,6 +621,7 @@ def group_case(ctx, rng, idx, state):
         G = ps.PointGroup(gens_lib, real_lattice=L)
     wit["from_recip_lattice"] = bool(use_recip)
 
+    check_product_strings(ctx, ps, rng)
     check_group_structure(ctx, ps, G, oracle, expected, wit, rng)
     if G.size != expected:
         return      # everything below needs the right element set
@@ -680,7 +708,7 @@ if __name__ == "__main__":
                      "tensor oracle = einsum with the improper matrix, (-1)^rank removed, Transform semantics re-implemented",
                      "pairs of transforms whose axis permutations do not commute are outside the domain of 'group action'",
                      "irrep/spglib space groups are trusted as input generators (their closure is verified, else Skip)"],
-        required_counters=("groups_built", "closure_pairs", "action_law_rank0", "action_law_rank4", "action_law_complex",
+        required_counters=("groups_built", "product_strings_noncommuting", "closure_pairs", "action_law_rank0", "action_law_rank4", "action_law_complex",
                            "action_law_with_TR", "action_law_with_inversion", "tensor_oracle_rank3", "symmetrize_checked",
                            "symmetrize_nonzero_result", "symmetrize_changes_input", "star_generic_k", "star_high_symmetry_k",
                            "roundtrip", "incompatible_lattice_tested", "symmetric_grid_true", "symmetric_grid_false",
